@@ -60,6 +60,9 @@ ATTRS = {
     (None, "ref"): ("ploc_ref", "pure"),
     (None, "ref_db"): ("ploc_ref_db", "pure"),
     (None, "record"): ("ent_record", "pure"),
+    ("self", "modules"): ("am_modules", "pure"),
+    ("self", "vector"): ("am_vector", "pure"),
+    ("self", "elements"): ("am_elements", "pure"),
     (None, "cutter"): ("ent_cutter", "pure"),
     ("six", "MAXSIZE"): ("py_MAXSIZE", "const"),
 }
@@ -77,6 +80,9 @@ METHODS = {
     (None, "catalyse"): dict(coq="enz_catalyse", kind="pure"),
     (None, "_get_regex"): dict(coq="ent_regex", kind="pure"),
     ("annotations", "get"): dict(coq="ann_get_%(key)s", kind="pure", constkey=True),
+    (None, "overhang_start"): dict(coq="ent_overhang_start", kind="exc"),
+    (None, "overhang_end"): dict(coq="ent_overhang_end", kind="exc"),
+    (None, "target_sequence"): dict(coq="ent_target_sequence", kind="exc"),
 }
 
 # plain function calls
@@ -90,6 +96,8 @@ FUNCS = {
     "add_as_source": dict(coq="py_add_as_source", kind="pure"),
     "copy.deepcopy": dict(coq="py_deepcopy", kind="pure"),
     "SeqRecord": dict(coq="mk_SeqRecord", kind="pure"),
+    "SeqRecord/1": dict(coq="mk_SeqRecord1", kind="pure"),
+    "CircularRecord": dict(coq="bio_CircularRecord_of", kind="exc"),
     "FeatureLocation": dict(coq="mk_FeatureLocation", kind="pure", kwargs=["start", "end", "strand", "ref", "ref_db"]),
     "CompoundLocation": dict(coq="mk_CompoundLocation", kind="pure"),
     "SeqFeature": dict(coq="mk_SeqFeature", kind="pure", kwargs=["location", "type", "id", "qualifiers"]),
@@ -266,8 +274,13 @@ class Fn(object):
                 bs += b
                 atoms.append(a)
             return bs, "(" + ", ".join(atoms) + ")"
-        if isinstance(e, ast.List) and not e.elts:
-            return [], "[]"
+        if isinstance(e, ast.List):
+            bs, atoms = [], []
+            for x in e.elts:
+                b, a = self.expr(x)
+                bs += b
+                atoms.append(a)
+            return bs, "[" + "; ".join(atoms) + "]"
         if isinstance(e, ast.Dict) and not e.keys:
             return [], "[]"
         if isinstance(e, ast.DictComp):
@@ -398,8 +411,21 @@ class Fn(object):
             return self.expr(e.args[0])
         if src == "six.iteritems":
             return self.expr(e.args[0])
+        if src == "Seq" and len(e.args) == 1 and isinstance(e.args[0], ast.Constant) and e.args[0].value == "":
+            return [], "(mk_Seq [])"
+        key_n = "%s/%d" % (src, len(e.args) + len(e.keywords))
+        if key_n in FUNCS:
+            return self.apply(FUNCS[key_n], [], e, [])
         if src in FUNCS:
             return self.apply(FUNCS[src], [], e, [])
+        if isinstance(f, ast.Attribute) and isinstance(f.value, ast.Name) and f.value.id in self.dictvars:
+            d, keq = cname(f.value.id), self.dictvars[f.value.id]
+            b, atoms = self.args_of(e)
+            if f.attr == "get" and len(atoms) == 1:
+                return b, "(dict_get %s %s %s)" % (keq, d, atoms[0])
+            if f.attr == "values" and not atoms:
+                return b, "(dict_values %s)" % d
+            raise Unsupported("dictionary method %s" % ast.unparse(e))
         if isinstance(f, ast.Attribute):
             # super(C, self).m(...)  — resolved statically by the spec
             key = (hint_of(f.value), f.attr)
@@ -443,7 +469,7 @@ class Fn(object):
         if isinstance(e.value, ast.Name) and e.value.id in self.dictvars:
             bk, ak = self.expr(s)
             t = self.fresh()
-            return b + bk + [("bind", t, "dict_getitem %s %s" % (a, ak))], t
+            return b + bk + [("bind", t, "dict_getitem %s %s %s" % (self.dictvars[e.value.id], a, ak))], t
         bi, ai = self.expr(s)
         t = self.fresh()
         return b + bi + [("bind", t, "py_getitem %s %s" % (a, ai))], t
@@ -600,7 +626,7 @@ class Fn(object):
                 if m:
                     add(m)
                 if isinstance(s.value, ast.Call) and ast.unparse(s.value.func) == "warnings.warn":
-                    add("_warnings")
+                    add("warnings_acc")
             elif isinstance(s, (ast.For, ast.While)):
                 inner = self.assigned(s.body, cur)
                 for n in inner:
@@ -666,6 +692,15 @@ class Fn(object):
             x = cname(nt[0])
             some_t, none_t = (then_text, else_text) if nt[1] else (else_text, then_text)
             return "match %s with\n| Some %s =>\n%s\n| None =>\n%s\nend" % (x, x, some_t, none_t)
+        if isinstance(test, ast.BoolOp) and isinstance(test.op, ast.And):
+            nt0 = self.none_test(test.values[0])
+            if nt0 and nt0[1]:
+                x = cname(nt0[0])
+                rest_t = test.values[1] if len(test.values) == 2 else ast.BoolOp(op=ast.And(), values=test.values[1:])
+                inner = self.cond(rest_t, then_text, else_text)
+                return "match %s with\n| Some %s =>\n%s\n| None =>\n%s\nend" % (x, x, inner, else_text)
+        if isinstance(test, ast.Name) and test.id in self.dictvars:
+            return "if dict_nonempty %s then\n%s\nelse\n%s" % (cname(test.id), then_text, else_text)
         b, a = self.expr(test)
         return "%sif %s then\n%s\nelse\n%s" % (self.bind_text(b), a, then_text, else_text)
 
@@ -673,7 +708,7 @@ class Fn(object):
         if self.ret_opt and not is_none:
             atom = "(Some %s)" % atom
         if self.warns:
-            atom = "(%s, _warnings)" % atom
+            atom = "(%s, warnings_acc)" % atom
         return atom
 
     def block(self, stmts, defined, fall, retwrap):
@@ -731,7 +766,7 @@ class Fn(object):
                 line = "let '(%s, %s) := dict_setdefault %s %s %s in\n" % (
                     cname(t.id), d, self.dictvars[mc], d, " ".join(atoms))
             elif v.func.attr == "pop" and mc in self.dictvars:
-                line = "'(%s, %s) <- dict_pop %s %s ;;\n" % (cname(t.id), d, d, " ".join(atoms))
+                line = "'(%s, %s) <- dict_pop %s %s %s ;;\n" % (cname(t.id), d, self.dictvars[mc], d, " ".join(atoms))
             else:
                 raise Unsupported("mutating call %s" % ast.unparse(v))
             return self.bind_text(b) + line + cont(defined | {t.id})
@@ -759,7 +794,7 @@ class Fn(object):
             w = v.args[0]
             if ast.unparse(w.func) == "errors.UnusedModules" and len(w.args) == 1 and isinstance(w.args[0], ast.Starred):
                 b, a = self.expr(w.args[0].value)
-                return self.bind_text(b) + "let _warnings := _warnings ++ [WUnusedModules (map ent_id %s)] in\n" % a \
+                return self.bind_text(b) + "let warnings_acc := warnings_acc ++ [WUnusedModules (map ent_id %s)] in\n" % a \
                     + cont(defined)
             raise Unsupported("warning %s" % ast.unparse(w))
         mc = self.mutating_call(v)
@@ -888,8 +923,8 @@ class Fn(object):
         defined = set(params)
         pre = ""
         if self.warns:
-            pre = "let _warnings := [] in\n"
-            defined.add("_warnings")
+            pre = "let warnings_acc := [] in\n"
+            defined.add("warnings_acc")
         if self.spec.get("init"):
             fields = self.spec["init"]
 
